@@ -4,11 +4,14 @@ Line-protocol driver of M16 (request encoding, `KmipModel/EncodeRequest.lean`). 
   {"req": R}        R = the `req` object of the engine line protocol (parsed with `Wire.pRequest`)
       -> {"hex": H, "encodable": B, "ok": B, "valid": B, "canonical": B, "exact": B, "roundtrip": B, "decoded": D}
            hex        `TTLV.encode (encRequest r)` (the encoder is total: there is always a tree)
-           ok         `okRequest r`                 valid      `lvalidB (encRequest r)`
+           ok         `okRequest r`
+           short      the frame is shorter than 2^32 bytes
+           valid      `lvalidB (encRequest r)`: M1 validity of the tree + UTF-8 text, evaluated (theorem
+                      `encRequest_valid` says ok && short implies it)
            canonical  no item carries one of the optional keys of `impl_engine.build_payload` that select another
                       wire representative than the one the model encodes ("cp", "data_hex", "iv_hex", "tag_hex",
                       "sig_hex", "div_hex", "salt_hex", "iters", "method"; "ddata_hex" other than the bytes 1..n)
-           encodable  ok && valid && canonical   (= `Encodable r` for the request the line denotes)
+           encodable  ok && short && canonical   (= `Encodable r` for the request the line denotes)
            exact      `norm r` and `r` differ in the scripted backend outcome only
            roundtrip  `Decode.decodeFrame 12 (requestBytes r)` = `.ok (norm r)`, evaluated (the run-time reading of
                       theorem `request_roundtrip`; compared on the JSON rendering)
@@ -128,8 +131,9 @@ def step (line : String) : String :=
       let (rt, dec) := match decodeFrame 12 bytes with
         | .ok d => ((jRequest d).compress == (jRequest nr).compress, jRequest d)
         | .error e => (false, Json.mkObj [("err", e.cls), ("detail", e.detail)])
-      pure (Json.mkObj [("hex", hexOfBytes bytes), ("encodable", ok && valid && canonical), ("ok", ok),
-        ("valid", valid), ("canonical", canonical), ("exact", exact), ("roundtrip", rt), ("decoded", dec),
+      let short := decide (bytes.length < 2 ^ 32)
+      pure (Json.mkObj [("hex", hexOfBytes bytes), ("encodable", ok && short && canonical), ("ok", ok),
+        ("short", short), ("valid", valid), ("canonical", canonical), ("exact", exact), ("roundtrip", rt), ("decoded", dec),
         ("items_ok", Json.arr (req.items.map (fun it => Json.bool (okItem req.version it))).toArray)])
     match r with
     | .ok out => out.compress
